@@ -6,7 +6,7 @@ forks where the code branches on symbolic data (and where a symbolic size/offset
 made concrete); every assertion and every memory access is decided by the solver for all
 values on that path.  Exhausting the paths is a verdict for the whole bounded input space.
 """
-import sys, os, time, math, struct
+import sys, os, time, math, struct, re
 import z3
 from symval import *
 from ir import parse_module, TInt, TPtr, TFloat, TArr, TVec, TStruct, TNamed, TOpaque
@@ -761,8 +761,14 @@ class Engine(object):
         """build the initial state: globals, static constructors, frame of the harness entry"""
         st = State()
         s.init_globals(st)
-        ctors = s.mod.globals.get('@llvm.global_ctors')
         names = [fn for fn in s.mod.funcs if fn.startswith('@_GLOBAL__sub_I_')]
+        # dynamic initialisers of template static members / inline variables are registered individually in
+        # @llvm.global_ctors (not through a _GLOBAL__sub_I_ function): run them too, in registration order
+        m = re.search(r'^@llvm\.global_ctors = .*$', s.mod.text if hasattr(s.mod, 'text') else '', re.M)
+        if m:
+            for fn in re.findall(r'void \(\)\* (@[\w.$"]+)', m.group(0)):
+                fn = fn.strip('"')
+                if fn not in names and fn in s.mod.funcs: names.append(fn)
         s.cur = st
         s.initializing = True
         for fn in names:
